@@ -9,6 +9,7 @@ package motion
 import (
 	"fmt"
 	"testing"
+	"time"
 
 	config "github.com/TheCacophonyProject/go-config"
 	"github.com/TheCacophonyProject/go-cptv/cptvframe"
@@ -152,6 +153,16 @@ func TestVerif_C07(t *testing.T) {
 			frames = sceneStepStream(rng, cfg, rng.Range(3, 9))
 		}
 		via := idx%2 == 1
+		if idx%8 == 5 {
+			// the telemetry's up-time jumps about (forward, backward, repeated) while staying far
+			// from the last FFC: it has no say in detection
+			for i := range frames {
+				if !frames[i].Reset {
+					frames[i].TimeOn = time.Minute + time.Duration(vMix(uint64(idx)*100003+uint64(i))%600000)*time.Millisecond
+					frames[i].LastFFC = 0
+				}
+			}
+		}
 		bad := -1
 		c.Case(idx, func() interface{} { return detStreamDesc(cfg, frames, bad)() }, func() {
 			drv := newDetDriver(cfg, via)
@@ -198,6 +209,9 @@ func TestVerif_C07(t *testing.T) {
 			}
 			if cfg.W >= 320 {
 				c.Count("boson_sized_streams", 1)
+			}
+			if idx%8 == 5 {
+				c.Count("streams_with_erratic_up_time", 1)
 			}
 			if via {
 				c.Count("streams_via_processor_api", 1)
